@@ -14,7 +14,13 @@ import (
 	"strconv"
 	"strings"
 	"sync"
+	"sync/atomic"
 )
+
+// Progress counts logged events and released gates of all controllers: the driver's real-time
+// watchdog uses it to tell a livelock (goroutines spinning, so that synctest never sees
+// quiescence) from slow progress.
+var Progress atomic.Int64
 
 // Event is one line of the trace.
 type Event map[string]any
@@ -111,6 +117,7 @@ func (c *Ctl) LogP(proc, ev string, kv ...any) {
 	for i := 0; i+1 < len(kv); i += 2 {
 		e[kv[i].(string)] = kv[i+1]
 	}
+	Progress.Add(1)
 	c.mu.Lock()
 	c.seq++
 	e["seq"] = c.seq
@@ -148,6 +155,7 @@ func (c *Ctl) Parked() []*Gate {
 }
 
 func (c *Ctl) Release(g *Gate) {
+	Progress.Add(1)
 	c.mu.Lock()
 	for i, p := range c.parked {
 		if p == g {
